@@ -160,6 +160,9 @@ pub fn check_case(ctx: &Ctx, e: &Entry, v: &Value, agg: &mut Agg) {
     }
     agg.count("evaluations", 1);
     agg.count("nontrivial", 1);
+    if agg.samples.len() < 2 {
+        agg.samples.push(json!({"type": format!("{}::{} ::= {}", e.module_id, e.def, truncate(&d.ty.asn(), 100)), "value": v.short(), "abstract_validity": format!("{:?}", check_value(m, &d.ty, v))}));
+    }
     let case = || case_json(e, v, 0, "c06");
     // validity is judged on the abstract constraint, not by the reference encoder (a UTF8String SIZE
     // is not PER-visible but still a constraint the encoder has to enforce)
